@@ -152,3 +152,16 @@ def qshift_residual(qshift):
                       abs(float(np.dot(h0a[:m - s], h1a[s:]))), abs(float(np.dot(h1a[:m - s], h0a[s:]))))
         _RESID[qshift] = res
     return _RESID[qshift]
+
+
+def filt_args(biort, qshift, form, inverse=False):
+    """The documented ways of naming the filters: names, or tuples of arrays (level-1 (lo, hi) and q-shift
+    (lo a, lo b, hi a, hi b)), taken from the reference package's tables."""
+    if form != 'tuples':
+        return biort, qshift
+    import dtcwt.coeffs as dc
+    h0o, g0o, h1o, g1o = dc.biort(biort)
+    h0a, h0b, g0a, g0b, h1a, h1b, g1a, g1b = dc.qshift(qshift)
+    if inverse:
+        return (g0o, g1o), (g0a, g0b, g1a, g1b)
+    return (h0o, h1o), (h0a, h0b, h1a, h1b)
